@@ -32,7 +32,7 @@ func NewEntity(eType model.EntityTypeType, deviceAddress *model.AddressDeviceTyp
 			Entity: entityAddress,
 		},
 	}
-	if entityAddress[0] == 0 {
+	if len(entityAddress) > 0 && entityAddress[0] == 0 {
 		// Entity 0 Feature addresses start with 0
 		entity.fIdGenerator = newFeatureIdGenerator(0)
 	} else {
